@@ -60,15 +60,51 @@ Proof.
   apply Z.divide_abs_l. exact D.
 Qed.
 
-(* x % r: None = exception for r = 0; a value v is congruent to num/den modulo r: v * den = num (mod r).
-   _partial: that a value IS returned whenever gcd(den, r) = 1 (the loop's fuel suffices) is correspondence-tested,
-   full statement:  forall x r, r <> 0 -> Z.gcd (den x) r = 1 -> exists v, rmod x r = Some (Some v) /\ (r | v * den x - num x). *)
-Definition Mod_partial_stmt := forall x r,
-  (r = 0 -> rmod x r = None) /\
-  (forall v, rmod x r = Some (Some v) -> r <> 0 /\ (r | v * den x - num x)).
-Lemma mod_partial_thm : Mod_partial_stmt.
+(* the loop terminates within the fuel: the product r0*r1 at least halves at every step; it then returns the gcd *)
+Lemma inv_loop_gcd : forall n r0 r1 s0 s1, 0 <= r1 < r0 -> r0 * r1 < 2 ^ Z.of_nat n ->
+  fst (inv_loop n r0 r1 s0 s1) = Z.gcd r0 r1.
 Proof.
-  intros [n d] r. unfold rmod, isZeroI. cbn [num den fst snd]. split.
+  induction n as [|n IH]; intros r0 r1 s0 s1 H P.
+  - cbn [inv_loop fst]. change (2 ^ Z.of_nat 0) with 1 in P. assert (r1 = 0) by nia. subst r1.
+    rewrite Z.gcd_0_r. lia.
+  - cbn [inv_loop]. destruct (Z.eqb_spec r1 0) as [-> | N]; cbn [fst].
+    + rewrite Z.gcd_0_r. lia.
+    + assert (E := Z.div_mod r0 r1 N). assert (B := Z.mod_pos_bound r0 r1 ltac:(lia)).
+      assert (Q : 1 <= r0 / r1) by (apply Z.div_le_lower_bound; lia).
+      replace (r0 - r0 / r1 * r1) with (r0 mod r1) by lia.
+      rewrite IH.
+      * rewrite Z.gcd_comm. rewrite Z.gcd_mod by exact N. apply Z.gcd_comm.
+      * lia.
+      * rewrite Nat2Z.inj_succ, Z.pow_succ_r in P by lia.
+        assert (2 * (r0 mod r1) <= r0) by nia. nia.
+Qed.
+
+Lemma invmodI_complete : forall a m, m <> 0 -> Z.gcd a m = 1 -> exists i, invmodI a m = Some i.
+Proof.
+  intros a m Hm G. unfold invmodI. cbv zeta.
+  set (m' := Z.abs m). assert (Hm' : 0 < m') by (unfold m'; lia).
+  assert (B := Z.mod_pos_bound a m' Hm').
+  rewrite inv_loop_gcd.
+  - rewrite Z.gcd_comm, Z.gcd_mod by lia. unfold m'. rewrite Z.gcd_abs_l, Z.gcd_comm, G. cbn. eexists; reflexivity.
+  - lia.
+  - rewrite Z2Nat.id by (assert (0 <= Z.log2 m') by apply Z.log2_nonneg; lia).
+    assert (L : m' < 2 ^ (Z.log2 m' + 1)) by (rewrite Z.add_1_r; apply (Z.log2_spec m' Hm')).
+    assert (0 <= Z.log2 m') by apply Z.log2_nonneg.
+    replace (2 * Z.log2 m' + 4) with ((Z.log2 m' + 1) + (Z.log2 m' + 1) + 2) by ring.
+    set (e := Z.log2 m' + 1) in *. assert (0 <= e) by (unfold e; lia).
+    rewrite !Z.pow_add_r by lia. change (2 ^ 2) with 4.
+    set (p := 2 ^ e) in *. clearbody p. nia.
+Qed.
+
+(* x % r: None = exception for r = 0; for r <> 0 coprime to the denominator a value v is returned with
+   v * den = num (mod r), i.e. v is congruent to num/den modulo r (v is num * (den^-1 mod |r|), not reduced) *)
+Definition Mod_stmt := forall x r,
+  (r = 0 -> rmod x r = None) /\
+  (forall v, rmod x r = Some (Some v) -> r <> 0 /\ (r | v * den x - num x)) /\
+  (r <> 0 -> Z.gcd (den x) r = 1 -> exists v, rmod x r = Some (Some v)).
+Lemma mod_thm : Mod_stmt.
+Proof.
+  intros [n d] r. unfold rmod, isZeroI. cbn [num den fst snd]. split; [|split].
   - intros ->. reflexivity.
   - intros v. destruct (Z.eqb_spec r 0) as [-> | Hr]; [discriminate|].
     destruct (Z.eqb_spec n 0) as [-> | Hn].
@@ -76,6 +112,9 @@ Proof.
     + destruct (invmodI d r) as [i|] eqn:Ei; [|discriminate].
       intros E. inversion E. split; [exact Hr|].
       destruct (invmodI_sound d r i Hr Ei) as [_ [k Hk]]. exists (k * n). nia.
+  - intros Hr G. destruct (Z.eqb_spec r 0); [contradiction|].
+    destruct (Z.eqb_spec n 0); [eexists; reflexivity|].
+    destruct (invmodI_complete d r Hr G) as [i Ei]. rewrite Ei. eexists; reflexivity.
 Qed.
 
 Example mod_example : rmod (3, 7) 10 = Some (Some 9) /\ rmod (3, 7) 0 = None /\ rmod (1, 2) 4 = Some None /\ rmod (-5, 3) (-7) = Some (Some (-25)).
